@@ -155,6 +155,13 @@ func VerifHarness_C01_pending_fork() {
 	w.peer.setBest("b3")
 	w.peer.toNode = append(w.peer.toNode, bodies[nb:]...)
 	before := w.countInSync()
+	// the fork announcement may be handled while the block processor holds a block it has taken off
+	// the queue and not yet processed (interleaving point between NextBlock and ProcessBlock)
+	if verifrt.Choose("announcement-handled-inside-the-block-processor", 2) == 1 {
+		w.interleave = 1
+		w.process()
+		w.interleave = 0
+	}
 	w.settle(8)
 	w.checkInSyncNotifications(before)
 	verifrt.Note("closure: node height %d tip %s, peer best %v", k.node.blocks.LastHeight(), tree.byHash[*k.node.blocks.LastHash()], w.peer.best)
